@@ -891,7 +891,7 @@ func main() {
 		"ordered pairs and triples of kinds as listed in coverage.streams (thorough: all 25 pairs, 25 triples, one 3-envelope stream around an 8 KiB message). " +
 		"WRITE side: every plan of <=2 faults over the Write calls of the stream, fault in {short write of EVERY length n in [0,len) + temporary timeout, " +
 		"hard error after n bytes, n bytes + timeout + context cancelled}; 8 KiB stream: every single fault at every length, pairs on a stated grid. " +
-		"READ side: the far-side bytes of a clean Send under EVERY split into <=3 reads at every byte boundary (thorough: <=4 reads for streams <=130 bytes; 8 KiB stream: 2 reads at every boundary, 3 reads on a stated grid), " +
+		"READ side: the far-side bytes of a clean Send under EVERY split into <=3 reads at every byte boundary (thorough: <=4 reads for streams <=115 bytes; 8 KiB stream: 2 reads at every boundary, 3 reads on a stated grid), " +
 		"each split plain / with a stall before each single read / before all reads / each read (and all reads) returned together with a temporary timeout; " +
 		"fixed-size reads of 1,2,3,5,7 bytes; the stream ended after EVERY offset c by io.EOF or a hard error, as a separate answer or together with the last bytes, " +
 		"the c bytes arriving in 1 read, 2 reads (every boundary) or byte by byte. DUPLEX: inbound pair while a Send on the same transport fails on a cancelled context at every length. " +
@@ -988,7 +988,7 @@ func main() {
 	if rep.Thorough() {
 		n4 := 0
 		for _, s := range streams {
-			if len(pconn.Concat(items(s))) <= 130 {
+			if len(pconn.Concat(items(s))) <= 115 {
 				n4++
 				s := s
 				S, wire := cleanWire(s)
